@@ -1,6 +1,6 @@
 (* Correspondence cases for C05: the harness writes (input, observed implementation output);
    [mismatches05] returns the indices where the model disagrees. *)
-From KV Require Export Fs.Loader.
+From KV Require Export Fs.Loader Fs.LoadTree.
 
 Definition oclass_eqb (a b : oclass) : bool :=
   match a, b with
@@ -47,6 +47,14 @@ Inductive case05 :=
 (* NewLoader(restr, target); then New(p) for each p of [news]; then [op].
    stage = number of loaders successfully built; cls = class of the first failing step, or of [op];
    root = Root() of the last loader built; bytes = loaded content when [op] is a successful load. *)
+(* a build over kustomizations that only list bases: [bases] = for every root (physical path) the directory
+   references of its kustomization; observed: the roots whose kustomization file was read, in order, and
+   the outcome class of the build *)
+| K_visit (fs : vfs) (target : string) (bases : list (string * list string)) (cls : oclass) (trace : list string)
+(* a build over kustomizations listing resource files and bases: [kusts] maps the text of every
+   kustomization file to its resources: entries; observed: outcome class and, on success, every path handed
+   to ReadFile, in order *)
+| K_build (fs : vfs) (target : string) (kusts : list (string * list string)) (cls : oclass) (reads : list string)
 | K_chain (fs : vfs) (rootonly : bool) (target : string) (news : list string) (op : chainop)
           (stage : N) (cls : oclass) (root : string) (bytes : string).
 
@@ -74,6 +82,13 @@ Fixpoint run_news (fs : fsops) (l : loader) (news : list string) (n : N) : (N * 
       end
   end.
 
+Fixpoint strs_eqb05 (a b : list string) : bool :=
+  match a, b with
+  | [], [] => true
+  | x :: a', y :: b' => String.eqb x y && strs_eqb05 a' b'
+  | _, _ => false
+  end.
+
 Definition agree05 (c : case05) : bool :=
   match c with
   | K_clean p out => String.eqb (clean p) out
@@ -99,7 +114,28 @@ Definition agree05 (c : case05) : bool :=
       match fs with
       | VMem _ => false
       | VDisk d => res_str_agree (eval_symlinks d p) cls out
-      | VDiskAt _ _ => false
+      | VDiskAt d cwd => res_str_agree (eval_symlinks_at d cwd p) cls out
+      end
+  | K_visit fs target bases cls trace =>
+      let ops := ops_of fs in
+      let bf := fun r => match find (fun kv => String.eqb (fst kv) r) bases with Some kv => snd kv | None => [] end in
+      match m_new_loader ops RootOnly target with
+      | Ok l0 =>
+          let (tr, c) := visit_trace never no_git 64 ops bf l0 in
+          oclass_eqb c cls && strs_eqb05 tr trace
+      | r => oclass_eqb cls (class_of r) && match trace with [] => true | _ => false end
+      end
+  | K_build fs target kusts cls reads =>
+      let ops := ops_of fs in
+      let pk := fun txt => match find (fun kv => String.eqb (fst kv) txt) kusts with
+                           | Some kv => Ok (tt, snd kv) | None => Err end in
+      match m_new_loader ops RootOnly target with
+      | Ok l0 =>
+          match load_tree_gen unit unit unit (fun _ => tt) (fun _ _ _ => tt) never no_git pk (fun _ => Ok tt) 64 ops l0 with
+          | Ok (_, evs) => oclass_eqb cls COk && strs_eqb05 (map ev_path evs) reads
+          | r => oclass_eqb cls (class_of r)
+          end
+      | r => oclass_eqb cls (class_of r)
       end
   | K_chain fs ro target news op stage cls root bytes =>
       let ops := ops_of fs in
